@@ -2,7 +2,7 @@
 # tools/confirm_seeded.sh <Cxx> <variant>  — confirm a sub-agent's seeded change in its scratch worktree:
 #   demo passes on the clean tree, fails with the patch; the repository's test-suite outcome is unchanged with the patch.
 id=$1; v=$2; wt=${WT_PREFIX:-/tmp/mut-}$id; d=$wt/_seeded/$v
-PY="env PYTHONPATH=$wt /venv/bin/python"
+PY="env PYTHONPATH=$wt OMP_NUM_THREADS=1 OPENBLAS_NUM_THREADS=1 MKL_NUM_THREADS=1 /venv/bin/python"
 cd $wt || exit 3
 git checkout -q -- . ; 
 timeout 300 $PY $d/demo.py > /tmp/demo_clean_$id$v.out 2>&1; rc_clean=$?
